@@ -10,6 +10,10 @@
 //!   * with a cold VM (fresh `VmModules`, empty code cache) and with a warm one shared by all runs,
 //!   * on 8 threads concurrently (each thread runs all 12 configurations against the shared
 //!     database and the shared warm VM),
+//!   * in a SECOND OS PROCESS: the harness re-executes itself (`--child 1`) with the same seed; the
+//!     child rebuilds the same history from scratch (fresh address space, fresh hash seeds) and
+//!     writes the digest of every transaction's reference result, which the parent compares with
+//!     its own at the end,
 //! and the harness requires byte-identical SBOR encodings of (state updates in order, application
 //! events, outcome, fee summary, fee source, fee destination, result kind). Direct oracle = that
 //! byte comparison. There is no per-case model evaluation (Gallina functions are deterministic by
@@ -70,6 +74,34 @@ fn main() {
     let root = Rng::new(args.seed);
     let mut world = World::new();
     let warm = VmModules::<DefaultWasmEngine, NoExtension>::default();
+    let is_child = args.extra.contains_key("child");
+    if is_child {
+        // second-process mode: reference digests only
+        let mut lines = String::new();
+        for i in 0..args.cases {
+            let mut rng = root.fork(i as u64);
+            let tx = world.next_tx(&mut rng);
+            let nonce = 1_000_000 + i as u32;
+            if let Ok(exe) = world.executable(&tx, nonce) {
+                let base = World::config(&tx);
+                let cfgs = configs(&base);
+                let db = world.db();
+                if let Ok(d) = catch(std::panic::AssertUnwindSafe(|| digest(&execute_transaction(db, &warm, &cfgs[0], &exe)))) {
+                    lines.push_str(&format!("{} {:016x} {}\n", i, fnv1a(&d), d.len()));
+                }
+            }
+            let _ = world.run(&tx);
+        }
+        std::fs::write(args.out.join("child_digests.txt"), lines).unwrap();
+        return;
+    }
+    let child_dir = args.out.join("child");
+    let child = std::process::Command::new(std::env::current_exe().unwrap())
+        .args(["--seed", &args.seed.to_string(), "--cases", &args.cases.to_string(), "--out", child_dir.to_str().unwrap(), "--child", "1"])
+        .stdout(std::process::Stdio::null())
+        .stderr(std::process::Stdio::null())
+        .spawn();
+    let mut own: Vec<(usize, String)> = Vec::new();
     for i in 0..args.cases {
         let mut rng = root.fork(i as u64);
         let tx = world.next_tx(&mut rng);
@@ -93,6 +125,7 @@ fn main() {
                 continue;
             }
         };
+        own.push((i, format!("{:016x} {}", fnv1a(&reference), reference.len())));
         let mut diffs: Vec<String> = Vec::new();
         let mut runs = 1u64;
         for (k, c) in cfgs.iter().enumerate() {
@@ -158,7 +191,30 @@ fn main() {
             Err(p) => report.oracle_failure(i, "", &format!("engine panicked on commit: {}", p.chars().take(300).collect::<String>()), json!({"index": i})),
         }
     }
+    // second OS process
+    match child {
+        Ok(mut c) => {
+            let _ = c.wait();
+            match std::fs::read_to_string(child_dir.join("child_digests.txt")) {
+                Ok(text) => {
+                    let theirs: std::collections::BTreeMap<usize, String> = text
+                        .lines()
+                        .filter_map(|l| l.split_once(' ').map(|(a, b)| (a.parse::<usize>().unwrap_or(usize::MAX), b.to_string())))
+                        .collect();
+                    for (i, d) in &own {
+                        report.count("second_process_compared");
+                        if theirs.get(i) != Some(d) {
+                            report.oracle_failure(*i, "", &format!("second OS process computed a different result for transaction {}: {:?} vs {}", i, theirs.get(i), d), json!({"index": i, "seed": args.seed}));
+                        }
+                    }
+                }
+                Err(e) => report.notes.push(format!("second process produced no digests: {}", e)),
+            }
+        }
+        Err(e) => report.notes.push(format!("could not spawn the second process: {}", e)),
+    }
     let n = args.cases as u64;
+    report.floor("second_process_compared", n / 2);
     report.floor("executions", n * 100);
     report.floor("outcome_success", n / 3);
     report.write(&args.out).unwrap();
